@@ -55,6 +55,9 @@ func runC03(c *an.Ctx) {
 		c.Und("C03-R14", "optional sub-messages are nil only when absent", token.NoPos, "only %d nil returns found", n)
 	}
 	c.Borrow("C03-R14", runC14, func(o an.Obligation) bool { return o.Rule == "C14-R8" && strings.Contains(o.Key, "setProfiles") })
+	if n := sharedCodecGuards(c, "C03-R14", nil, "backendpb.", "profiledb/internal/filecachepb."); n < 5 {
+		c.Und("C03-R14", "early returns of the profile codecs", token.NoPos, "only %d early returns found", n)
+	}
 	// ---- R13: what is configured for one server group (its device-ID domains) is not carried over to the next
 	if n := sharedNoLoopCarried(c, "C03-R13", "cmd.", "backendpb.", "profiledb", "dnssvc."); n >= 0 {
 		c.Ok("C03-R13", "per-element objects of the configuration and profile conversions take no cross-iteration accumulator", token.NoPos, "%d loops with a slice accumulator examined", n)
